@@ -171,7 +171,7 @@ func GenCells(rt *rapid.T, tok byte, n int, small bool) (rc.Fmt, []rc.Cell, []va
 			cell.DStatus = uint8(rapid.SampledFrom([]int{0, 0, 1, 1, 2, 3, 0x80, 0xff}).Draw(rt, "datastatus"))
 		}
 		if isTxtPtr(tw.T) {
-			cell.TxtPtr = rapid.SliceOfN(rapid.Byte(), 0, 16).Draw(rt, "txtptr")
+			cell.TxtPtr = genTxtPtr(rt)
 			cell.TS = rapid.SliceOfN(rapid.Byte(), 8, 8).Draw(rt, "ts")
 		}
 		f.Cols = append(f.Cols, c)
@@ -498,8 +498,17 @@ func CellFor(rt *rapid.T, c rc.Col) rc.Cell {
 		cell.DStatus = uint8(rapid.SampledFrom([]int{0, 0, 1, 1, 2, 3, 0x80, 0xff}).Draw(rt, "datastatus"))
 	}
 	if isTxtPtr(c.T) {
-		cell.TxtPtr = rapid.SliceOfN(rapid.Byte(), 0, 16).Draw(rt, "txtptr")
+		cell.TxtPtr = genTxtPtr(rt)
 		cell.TS = rapid.SliceOfN(rapid.Byte(), 8, 8).Draw(rt, "ts")
 	}
 	return cell
+}
+
+// genTxtPtr draws a text pointer: ASE uses 16 bytes, the length prefix allows 0..255.
+func genTxtPtr(rt *rapid.T) []byte {
+	n := rapid.IntRange(0, 16).Draw(rt, "txtptrlen")
+	if rapid.IntRange(0, 4).Draw(rt, "txtptrlong") == 0 {
+		n = rapid.SampledFrom([]int{17, 100, 127, 128, 200, 246, 247, 248, 249, 254, 255}).Draw(rt, "txtptrlen2")
+	}
+	return rapid.SliceOfN(rapid.Byte(), n, n).Draw(rt, "txtptr")
 }
